@@ -576,6 +576,47 @@ func init() {
 		m.p.B.AttesterSlashings = append(m.p.B.AttesterSlashings, as)
 		return true
 	})
+	mut("aslash_duplicate_index_valid_signature", "aslash", func(m *mctx) bool {
+		// attesting_indices [V, V] signed by Aggregate(sig_V, sig_V): only the sorted-and-unique rule can reject it
+		if uint64(len(m.p.B.AttesterSlashings)) >= uint64(m.c.Spec.MAX_ATTESTER_SLASHINGS) {
+			return false
+		}
+		v, ok := m.find(func(i common.ValidatorIndex, f *common.FlatValidator) bool { return m.p.slashable(i) })
+		if !ok {
+			return false
+		}
+		as := m.c.makeAttesterSlashing(m.p, []common.ValidatorIndex{v}, m.r.Bool())
+		k := m.c.keyOfVal(v)
+		for _, a := range []*phase0.IndexedAttestation{&as.Attestation1, &as.Attestation2} {
+			if a == &as.Attestation2 && m.r.Bool() {
+				continue // sometimes only the first one is malformed
+			}
+			a.AttestingIndices = common.CommitteeIndices{v, v}
+			dom, err := common.GetDomain(m.p.A, common.DOMAIN_BEACON_ATTESTER, a.Data.Target.Epoch)
+			if err != nil {
+				return false
+			}
+			a.Signature = m.c.BLS.Sign([]KeyNum{k, k}, common.ComputeSigningRoot(a.Data.HashTreeRoot(hFn()), dom))
+		}
+		m.p.B.AttesterSlashings = append(m.p.B.AttesterSlashings, as)
+		return true
+	})
+	mut("aslash_unsorted_valid_signature", "aslash", func(m *mctx) bool {
+		if uint64(len(m.p.B.AttesterSlashings)) >= uint64(m.c.Spec.MAX_ATTESTER_SLASHINGS) {
+			return false
+		}
+		a, ok1 := m.find(func(i common.ValidatorIndex, f *common.FlatValidator) bool { return m.p.slashable(i) })
+		m.p.used[a] = true
+		b, ok2 := m.find(func(i common.ValidatorIndex, f *common.FlatValidator) bool { return m.p.slashable(i) })
+		if !ok1 || !ok2 {
+			return false
+		}
+		as := m.c.makeAttesterSlashing(m.p, []common.ValidatorIndex{a, b}, m.r.Bool())
+		ix := as.Attestation1.AttestingIndices // sorted by the maker; the aggregate signature does not depend on the order
+		ix[0], ix[1] = ix[1], ix[0]
+		m.p.B.AttesterSlashings = append(m.p.B.AttesterSlashings, as)
+		return true
+	})
 	mut("aslash_nobody_slashable", "aslash", func(m *mctx) bool {
 		if uint64(len(m.p.B.AttesterSlashings)) >= uint64(m.c.Spec.MAX_ATTESTER_SLASHINGS) {
 			return false
@@ -985,6 +1026,37 @@ func init() {
 		b.VoluntaryExits = append(b.VoluntaryExits, ex, ex)
 		return true
 	})
+	mut("exit_already_initiated", "exit", func(m *mctx) bool {
+		// still active, exit_epoch already set (voluntary exit or ejection earlier; slashed ones only as a fallback)
+		pred := func(unslashed bool) func(i common.ValidatorIndex, f *common.FlatValidator) bool {
+			return func(i common.ValidatorIndex, f *common.FlatValidator) bool {
+				return f.IsActive(m.p.Epoch) && f.ExitEpoch != common.Epoch(FarFuture) && f.ExitEpoch > m.p.Epoch &&
+					m.p.Epoch >= f.ActivationEpoch+m.c.Spec.SHARD_COMMITTEE_PERIOD && (!unslashed || !f.Slashed)
+			}
+		}
+		v, ok := m.find(pred(true))
+		if !ok {
+			v, ok = m.find(pred(false))
+			m.note = "slashed"
+		}
+		if !ok {
+			return false
+		}
+		return addExit(m, m.c.makeExit(m.p, v, m.p.Epoch))
+	})
+	mut("exit_same_twice", "exit", func(m *mctx) bool {
+		b := m.p.B
+		if uint64(len(b.VoluntaryExits))+2 > uint64(m.c.Spec.MAX_VOLUNTARY_EXITS) {
+			return false
+		}
+		v, ok := m.find(func(i common.ValidatorIndex, f *common.FlatValidator) bool { return m.p.canExit(i) && !f.Slashed })
+		if !ok {
+			return false
+		}
+		ex := m.c.makeExit(m.p, v, m.p.Epoch)
+		b.VoluntaryExits = append(b.VoluntaryExits, ex, ex)
+		return true
+	})
 	mut("exit_reorder", "accepted", func(m *mctx) bool {
 		b := m.p.B
 		if len(b.VoluntaryExits) < 2 {
@@ -1192,6 +1264,33 @@ func init() {
 		}
 		return true
 	})
+	mut("sync_sig_new_fork_version", "sync", func(m *mctx) bool {
+		// first slot of a fork epoch: the aggregate is over the previous slot, so its domain is the PREVIOUS fork version;
+		// here it is signed under the new one
+		if m.p.Fork < Altair || !m.c.isForkStart(m.p.Slot) {
+			return false
+		}
+		sa := &m.p.B.Sync
+		n := uint64(m.c.Spec.SYNC_COMMITTEE_SIZE)
+		ss := m.p.A.(common.SyncCommitteeBeaconState)
+		scv, _ := ss.CurrentSyncCommittee()
+		pkv, _ := scv.Pubkeys()
+		pubs, _ := pkv.Flatten()
+		var keys []KeyNum
+		for i := uint64(0); i < n; i++ {
+			if sa.SyncCommitteeBits.GetBit(i) {
+				k, _ := KeyByPub(pubs[i])
+				keys = append(keys, k)
+			}
+		}
+		if len(keys) == 0 {
+			return false
+		}
+		root, _ := common.GetBlockRootAtSlot(m.c.Spec, m.p.A, m.p.Slot.Previous())
+		dom := common.ComputeDomain(common.DOMAIN_SYNC_COMMITTEE, m.stateVersion(), m.c.GVR)
+		sa.SyncCommitteeSignature = m.c.BLS.Sign(keys, common.ComputeSigningRoot(root, dom))
+		return true
+	})
 	// ---------- execution payload ----------
 	hasPayload := func(m *mctx) bool {
 		return m.p.Fork >= Capella || (m.p.Fork == Bellatrix && m.p.B.Payload.BlockHash != (common.Root{}))
@@ -1383,6 +1482,7 @@ func (c *Chain) CorruptStream(n int) {
 		picks[i] = r.Intn(len(c.Honest))
 	}
 	sort.Ints(picks)
+	c.mustHaveCorruptions(r)
 	var base *ProposeCtx
 	last := -1
 	var preState common.BeaconState
@@ -1480,6 +1580,96 @@ func (c *Chain) CorruptStream(n int) {
 		if !done {
 			c.Stats.Inc("corrupt_no_mutator_applicable")
 		}
+	}
+}
+
+// MustHave: corruptions every chain should contain once when some honest step allows them.
+var MustHave = []string{"exit_same_twice", "exit_already_initiated", "aslash_duplicate_index_valid_signature",
+	"aslash_unsorted_valid_signature", "aslash_indices", "sync_sig_new_fork_version", "exit_too_young", "blschange_wrong_from_key",
+	"deposit_bad_proof", "payload_withdrawals", "att_out_of_inclusion_window"}
+
+func (c *Chain) corruptBase(hs HonestStep) (*ProposeCtx, common.BeaconState) {
+	raw, fk := c.Rec.StateRaw(hs.PreID)
+	st, err := DecodeState(c.Spec, fk, raw)
+	if err != nil {
+		return nil, nil
+	}
+	adv := RunSlots(c.Spec, st, nil, hs.Blk.Slot, -1)
+	if adv.Err != nil || adv.Panicked {
+		return nil, nil
+	}
+	A := Unwrap(adv.Post)
+	vals, _ := A.Validators()
+	flats, _ := common.FlattenValidators(vals)
+	ps, _ := st.Slot()
+	return &ProposeCtx{C: c, A: A, Epc: adv.Epc, Slot: hs.Blk.Slot, Epoch: c.Spec.SlotToEpoch(hs.Blk.Slot), Fork: StateFork(A), Flats: flats, preSlot: ps}, st
+}
+
+func (c *Chain) tryMutator(r *hx.Rng, mu *mutator, base *ProposeCtx, hs HonestStep, pre common.BeaconState) bool {
+	p := *base
+	p.B = hs.Blk.Clone()
+	p.used = map[common.ValidatorIndex]bool{}
+	p.Ops = map[string]int{}
+	p.Flats = append([]common.FlatValidator(nil), base.Flats...)
+	m := &mctx{c: c, r: r, p: &p, resign: true, fixRoot: true, validate: true, engine: hs.Engine, engineAt: -1}
+	m.opsUsed()
+	applied := false
+	panicked, pv := hx.Catch(func() { applied = mu.fn(m) })
+	if panicked {
+		c.problem("mutator %s panicked: %v", mu.name, pv)
+		return false
+	}
+	if !applied {
+		return false
+	}
+	c.emitCorrupt(m, mu, hs, pre)
+	return true
+}
+
+// mustHaveCorruptions walks the honest steps (latest forks first, every fork start included) until each MustHave
+// mutator was applied once.
+func (c *Chain) mustHaveCorruptions(r *hx.Rng) {
+	missing := map[string]*mutator{}
+	for i := range allMutators {
+		for _, n := range MustHave {
+			if allMutators[i].name == n {
+				missing[n] = &allMutators[i]
+			}
+		}
+	}
+	order := make([]int, 0, len(c.Honest))
+	for i := range c.Honest {
+		if c.isForkStart(c.Honest[i].Blk.Slot) {
+			order = append(order, i)
+		}
+	}
+	// then a spread of the other steps
+	step := len(c.Honest)/24 + 1
+	for i := len(c.Honest) - 1; i >= 0; i -= step {
+		order = append(order, i)
+	}
+	for _, si := range order {
+		if len(missing) == 0 {
+			break
+		}
+		hs := c.Honest[si]
+		base, pre := c.corruptBase(hs)
+		if base == nil {
+			continue
+		}
+		for _, n := range MustHave {
+			mu := missing[n]
+			if mu == nil {
+				continue
+			}
+			if c.tryMutator(r, mu, base, hs, pre) {
+				delete(missing, n)
+				c.Stats.Inc("corrupt_must_have_done")
+			}
+		}
+	}
+	for n := range missing {
+		c.Stats.Inc("corrupt_must_have_missing." + n)
 	}
 }
 
